@@ -77,7 +77,7 @@ class C02(Prop):
     assumptions = ('order among handlers of equal priority is unspecified and not asserted',
                    'whether an equal-priority handler runs after stop() is not asserted',
                    'handlers run nested only inside an explicit recursive flush(); fire() itself must never run a handler')
-    budget = {'quick': (1200, 4), 'thorough': (12000, 16)}
+    budget = {'quick': (1200, 4), 'thorough': (20000, 16)}
 
     shrink_lists = {'waves': 1, 'handlers': 1, 'kids': 0}
 
